@@ -45,6 +45,8 @@ fn main() {
 #[derive(Clone, Copy, Debug, PartialEq, Eq)]
 enum Op {
     Insert { n: u8, t: u8, v: u8, ttl: u32 },
+    /// one `insert_all` call with the first `k` items (n, t, v, ttl): what the resolvers use for an upstream reply
+    InsertAll { k: u8, items: [(u8, u8, u8, u32); 3] },
     Get { n: u8, t: u8 },    // t == N_TYPES: ANY; t == N_TYPES+1: a type never inserted (PTR)
     GetRaw { n: u8, t: u8 }, // get_without_checking_expiration
     Prune,
@@ -54,6 +56,7 @@ enum Op {
 fn op_json(op: &Op) -> Value {
     match op {
         Op::Insert { n, t, v, ttl } => json!({"op": "insert", "n": n, "t": t, "v": v, "ttl": ttl}),
+        Op::InsertAll { k, items } => json!({"op": "insert_all", "items": items[..*k as usize].iter().map(|(n, t, v, ttl)| json!({"n": n, "t": t, "v": v, "ttl": ttl})).collect::<Vec<_>>()}),
         Op::Get { n, t } => json!({"op": "get", "n": n, "t": t}),
         Op::GetRaw { n, t } => json!({"op": "get_raw", "n": n, "t": t}),
         Op::Prune => json!({"op": "prune"}),
@@ -70,6 +73,15 @@ fn op_from_json(v: &Value) -> Option<Op> {
             v: g("v") as u8,
             ttl: g("ttl") as u32,
         },
+        "insert_all" => {
+            let mut items = [(0u8, 0u8, 0u8, 0u32); 3];
+            let arr = v["items"].as_array()?;
+            for (i, it) in arr.iter().take(3).enumerate() {
+                let gi = |k: &str| it[k].as_u64().unwrap_or(0);
+                items[i] = (gi("n") as u8, gi("t") as u8, gi("v") as u8, gi("ttl") as u32);
+            }
+            Op::InsertAll { k: arr.len().min(3) as u8, items }
+        }
         "get" => Op::Get {
             n: g("n") as u8,
             t: g("t") as u8,
@@ -143,12 +155,26 @@ fn gen_history(rng: &mut Rng, len: usize, profile: usize) -> Vec<Op> {
         let n = rng.below(names) as u8;
         let t = rng.below(N_TYPES) as u8;
         let op = match rng.below(100) {
-            0..=34 => Op::Insert {
+            0..=29 => Op::Insert {
                 n,
                 t,
                 v: rng.below(N_VALUES) as u8,
                 ttl: *rng.pick(ttls),
             },
+            30..=34 => {
+                // a batch as an upstream reply would give it: often one name, mixed TTLs (zero among them whatever the profile)
+                let k = rng.range(1, 3) as u8;
+                let mut items = [(0u8, 0u8, 0u8, 0u32); 3];
+                for it in items.iter_mut().take(k as usize) {
+                    *it = (
+                        if rng.chance(2, 3) { n } else { rng.below(names) as u8 },
+                        rng.below(N_TYPES) as u8,
+                        rng.below(N_VALUES) as u8,
+                        if rng.chance(1, 3) { 0 } else { *rng.pick(ttls) },
+                    );
+                }
+                Op::InsertAll { k, items }
+            }
             35..=54 => Op::Get {
                 n,
                 t: if rng.chance(1, 12) { N_TYPES as u8 + 1 } else { t },
@@ -255,6 +281,16 @@ impl Target {
             Target::Shared(c) => c.insert(rr),
         }
     }
+    fn insert_all(&mut self, rrs: &[ResourceRecord]) {
+        match self {
+            Target::Raw(c) => {
+                for rr in rrs {
+                    c.insert(rr);
+                }
+            }
+            Target::Shared(c) => c.insert_all(rrs),
+        }
+    }
     fn get(&mut self, n: &DomainName, q: QueryType) -> Vec<ResourceRecord> {
         match self {
             Target::Raw(c) => c.get(n, q),
@@ -338,6 +374,20 @@ fn run_history(prop: &str, ops: &[Op], desired: usize, shared: bool, coords: &Va
                     }
                     model.held.insert(key, model.now.saturating_add(u64::from(ttl) * SEC));
                     model.touch_both(n);
+                }
+            }
+            Op::InsertAll { k, items } => {
+                let batch: Vec<ResourceRecord> = items[..k as usize].iter().map(|(n, t, v, ttl)| rr(&name_of(*n), data_of(*t, *v), *ttl)).collect();
+                target.insert_all(&batch);
+                for (n, t, v, ttl) in &items[..k as usize] {
+                    if !(shared && *ttl == 0) {
+                        let key = (*n, *t, *v);
+                        if model.held.contains_key(&key) {
+                            model.reinserted.insert(*n);
+                        }
+                        model.held.insert(key, model.now.saturating_add(u64::from(*ttl) * SEC));
+                        model.touch_both(*n);
+                    }
                 }
             }
             Op::Get { n, t } | Op::GetRaw { n, t } => {
@@ -621,6 +671,7 @@ fn hash_history(ops: &[Op], desired: usize, shared: bool) -> u64 {
     for op in ops {
         let code = match *op {
             Op::Insert { n, t, v, ttl } => 1 | u64::from(n) << 8 | u64::from(t) << 16 | u64::from(v) << 24 | u64::from(ttl) << 32,
+            Op::InsertAll { k, items } => items[..k as usize].iter().fold(6u64, |acc, (n, t, v, ttl)| fnv_mix(acc, u64::from(*n) << 8 | u64::from(*t) << 16 | u64::from(*v) << 24 | u64::from(*ttl) << 32)),
             Op::Get { n, t } => 2 | u64::from(n) << 8 | u64::from(t) << 16,
             Op::GetRaw { n, t } => 3 | u64::from(n) << 8 | u64::from(t) << 16,
             Op::Prune => 4,
